@@ -85,7 +85,7 @@ func C02Grid(tier string) []*Config {
 	add := func(c *Config) { out = append(out, c) }
 	// 4-handed all-tie and two-way ties with uneven stacks (many all-in levels)
 	for _, br := range vectors(4, []int64{1, 2, 4}) {
-		add(cfg(br, 0, 1, 2, 0, false, 0, "no", "sv:1,1,1,1", 2, 0, "standard", "classes"))
+		add(cfg(br, 0, 1, 2, 0, false, 0, "no", "sv:0,0,0,0", 2, 0, "standard", "classes"))
 	}
 	for _, br := range vectors(4, []int64{2, 3}) {
 		add(cfg(br, 1, 1, 2, 0, false, 1, "no", "sv:2,1,2,1", 2, 0, "standard", "classes"))
@@ -96,10 +96,10 @@ func C02Grid(tier string) []*Config {
 	}
 	if tier == "thorough" {
 		for _, br := range vectors(5, []int64{2, 3, 5}) {
-			add(cfg(br, 0, 1, 2, 0, false, 2, "no", "sv:1,1,1,0,1", 2, 0, "standard", "classes"))
+			add(cfg(br, 0, 1, 2, 0, false, 2, "no", "sv:1,1,1,0,2", 2, 0, "standard", "classes"))
 		}
 		for _, br := range vectors(6, []int64{1, 2}) {
-			add(cfg(br, 0, 1, 2, 0, false, 0, "no", "sv:1,1,1,1,0,0", 2, 0, "standard", "classes"))
+			add(cfg(br, 0, 1, 2, 0, false, 0, "no", "sv:1,1,1,0,0,2", 2, 0, "standard", "classes"))
 		}
 	}
 	return out
